@@ -20,7 +20,8 @@ RULE = ('rectangular geometry recipes (gens/geo.py): nx, ny in 1..12 (not both 1
         'per-block distances, permeability direction, oriented gravity cosine. '
         'Non-trivial = single block along x or y, or rotated, or non-flat surface, or output convention different from the '
         'source, or file round trip; distinct = case JSON.'
-        " The original grid's signature is taken before rectgeo is called.")
+        " The original grid's signature is taken before rectgeo is called."
+        ' Round 7: boundary blocks below every one-block column (either orientation); thin layers far from the datum.')
 ASSUMPTIONS = ['the rotation of the source geometry is represented by rotate(theta) and permeability_angle = -theta, so that '
                'permeability directions 1 and 2 follow the grid axes (otherwise the grid alone does not determine the axes)',
                'at least one column reaches the top of the top layer (layers without any block leave no trace in the grid)',
